@@ -8,4 +8,22 @@ var props = map[string]propSpec{
 		"K<=2 (quick) / K<=3 (thorough) concurrent clients, P<=2 pollers; preemption bound as reported per scenario",
 		"the agent side of the wire protocol is played by harness threads that follow utils.go's request/response format",
 	}},
+	"C05": {Level: "model_checking", Harnesses: []harnessSpec{
+		{Name: "fwd", Quick: 60, Thorough: 600, Args: []string{"-prop", "C05"}},
+	}, Assume: []string{
+		"'within bounded time' is decided as logical progress: the backend-side handler continues only after the proxy endpoint has read every payload byte flushed so far; any stage that holds bytes back deadlocks under every schedule",
+		"the stage in front of the forwarder (httputil.ReverseProxy's copy loop) is not part of this harness; it is covered by the agent-level harness",
+	}},
+	"C06": {Level: "fault_enumeration", Harnesses: []harnessSpec{
+		{Name: "fwd", Quick: 90, Thorough: 1500, Args: []string{"-prop", "C06"}},
+	}, Assume: []string{
+		"the proxy endpoint is a scripted http.RoundTripper; 'lingering' models net/http's documented freedom to keep reading the request body after RoundTrip returns (one more Read, as the transport's write loop does)",
+		"fault plans: up to 3 attempts, kinds {5xx, connection error}, read positions {0,1,17,4095,4096,4097,all}",
+	}},
+	"C03": {Level: "model_checking", Harnesses: []harnessSpec{
+		{Name: "fwd", Quick: 60, Thorough: 600, Args: []string{"-prop", "C03"}},
+	}, Assume: []string{
+		"handler scripts follow httputil.ReverseProxy's use of http.ResponseWriter; zero-length writes are excluded because ReverseProxy's copy loop never issues them",
+		"sequentially consistent interleavings at synchronisation operations",
+	}},
 }
